@@ -544,7 +544,7 @@ Theorem with_gamma_fields (L : libm) (k : mkind) (g off : f64) (m : gmap) :
   gm_mult m = fdiv f64_one (match k with MLog => l_log L g | _ => l_log2 L g end).
 Proof.
   unfold with_gamma. destruct (fle g f64_one); [discriminate|].
-  destruct k; intros H; injection H as <-; cbn; repeat split; reflexivity.
+  destruct k; intros H; injection H as <-; cbn [gm_kind gm_gamma gm_off gm_mult]; repeat split; reflexivity.
 Qed.
 
 Theorem with_accuracy_is_with_gamma (L : libm) (k : mkind) (a : f64) :
@@ -568,11 +568,17 @@ Proof. intros H. apply with_accuracy_none_iff. left. exact H. Qed.
 
 (* NaN: every comparison is false, so both tests let it through; the logarithmic constructor then
    builds a mapping whose gamma is NaN, whatever the oracle *)
+Lemma fle_nan_l (g x : f64) : f_is_nan g = true -> fle g x = false.
+Proof. destruct g; intros H; try discriminate H. reflexivity. Qed.
+Lemma fle_nan_r (x g : f64) : f_is_nan g = true -> fle x g = false.
+Proof. destruct g; intros H; try discriminate H. destruct x as [sx|sx|sx plx Hplx|sx mx ex Hx]; try reflexivity; destruct sx; reflexivity. Qed.
 Theorem with_accuracy_nan_accepted (L : libm) (a : f64) :
   f_is_nan a = true -> exists m, with_accuracy L MLog a = Some m /\ f_is_nan (gm_gamma m) = true.
 Proof.
-  intros H. destruct a as [s|s|s pl Hpl|s mx ex Hx]; try discriminate H.
-  eexists. split; [vm_compute; reflexivity|reflexivity].
+  intros H. rewrite with_accuracy_is_with_gamma, (fle_nan_l a _ H), (fle_nan_r _ a H). cbn [orb].
+  assert (G : f_is_nan (acc_gamma L MLog a) = true).
+  { destruct a as [s|s|s pl Hpl|s mx ex Hx]; try discriminate H. unfold acc_gamma. vm_compute. reflexivity. }
+  unfold with_gamma. rewrite (fle_nan_l _ _ G). eexists. split; [reflexivity|exact G].
 Qed.
 
 (* C19: rebuilding from the gamma and offset a mapping reports gives the same mapping, field for
@@ -587,3 +593,488 @@ Qed.
 Theorem with_gamma_rebuild (L : libm) (k : mkind) (g off : f64) (m : gmap) :
   with_gamma L k g off = Some m -> with_gamma L (gm_kind m) (gm_gamma m) (gm_off m) = Some m.
 Proof. intros H. destruct (with_gamma_fields L k _ _ m H) as (K & G & O & _). rewrite K, G, O. exact H. Qed.
+
+(* ================================================================== *)
+(** * 5. C: merge trees of executable sketches (C02 on Layer B)        *)
+(* ================================================================== *)
+(* a tree of MergeWith over sketches each built by AddWithCount on a new sketch; every leaf chooses
+   its own kinds of stores and whether it keeps exact statistics; MergeWith keeps the receiver *)
+Inductive btree :=
+| BLeaf (kp kn : kind) (exact : bool) (adds : list (f64 * f64))
+| BNode (t1 t2 : btree).
+Definition kadds (l : list (f64 * f64)) : list kop := map (fun vc => KAdd (fst vc) (snd vc)) l.
+Definition q_adds (l : list (f64 * f64)) : list (Qc * W) := map (fun vc => (f2q (fst vc), f2q (snd vc))) l.
+Fixpoint b_adds (t : btree) : list (f64 * f64) :=
+  match t with BLeaf _ _ _ l => l | BNode t1 t2 => b_adds t1 ++ b_adds t2 end.
+(* the leftmost leaf is the receiver of the whole tree *)
+Fixpoint b_first (t : btree) : kind * kind * bool :=
+  match t with BLeaf kp kn e _ => (kp, kn, e) | BNode t1 _ => b_first t1 end.
+
+Section BEval.
+Variable rnd : Qc -> Qc.
+Variable fx : fixes.
+Variable mt : mtable.
+Variable m : mapid.
+Fixpoint b_eval (t : btree) : option sketch :=
+  match t with
+  | BLeaf kp kn e l => sk_run rnd fx mt (sk_new m kp kn e) (kadds l)
+  | BNode t1 t2 =>
+    match b_eval t1, b_eval t2 with
+    | Some s1, Some s2 => match sk_merge s1 s2 with ROk (s', _) => Some s' | _ => None end
+    | _, _ => None
+    end
+  end.
+End BEval.
+
+(* finite values, finite weights >= 0 *)
+Definition adds_ok (l : list (f64 * f64)) : Prop :=
+  Forall (fun vc => f_is_finite (fst vc) = true /\ f_is_finite (snd vc) = true /\ (w0 <= f2q (snd vc))%Qc) l.
+(* every leaf over non-collapsing stores (dense, sparse, paginated; any mix) *)
+Fixpoint b_exact (t : btree) : Prop :=
+  match t with
+  | BLeaf kp kn _ l => kind_limit kp = Exact /\ kind_limit kn = Exact /\ adds_ok l
+  | BNode t1 t2 => b_exact t1 /\ b_exact t2
+  end.
+(* the receiver (leftmost leaf) may be of ANY kind, collapsing included; every other leaf is over
+   non-collapsing stores *)
+Fixpoint b_ok (t : btree) : Prop :=
+  match t with
+  | BLeaf kp kn _ l => kind_ok kp /\ kind_ok kn /\ adds_ok l
+  | BNode t1 t2 => b_ok t1 /\ b_exact t2
+  end.
+
+Lemma adds_ok_app l1 l2 : adds_ok l1 -> adds_ok l2 -> adds_ok (l1 ++ l2).
+Proof. unfold adds_ok. intros H1 H2. apply Forall_app. split; assumption. Qed.
+Lemma adds_ok_kops mm l : adds_ok l -> Forall (kop_ok mm) (kadds l).
+Proof.
+  unfold adds_ok, kadds. intros H. apply Forall_map. eapply Forall_impl; [|exact H].
+  intros vc Hvc. exact Hvc.
+Qed.
+Lemma adds_ok_wnonneg l : adds_ok l -> wnonneg (q_adds l).
+Proof.
+  unfold adds_ok, wnonneg, q_adds. intros H. apply Forall_map. eapply Forall_impl; [|exact H].
+  intros vc (_ & _ & Hc). exact Hc.
+Qed.
+Lemma q_adds_app l1 l2 : q_adds (l1 ++ l2) = q_adds l1 ++ q_adds l2.
+Proof. apply map_app. Qed.
+Lemma exact_kind_ok k : kind_limit k = Exact -> kind_ok k.
+Proof. destruct k; intros H; try exact I; discriminate H. Qed.
+Lemma kind_limit_ok k : kind_ok k -> limit_ok (kind_limit k).
+Proof. destruct k; intros H; exact H. Qed.
+Lemma b_exact_ok t : b_exact t -> b_ok t.
+Proof.
+  induction t as [kp kn e l|t1 IH1 t2 IH2]; cbn [b_exact b_ok].
+  - intros (Hp & Hn & Hl). split; [now apply exact_kind_ok|]. split; [now apply exact_kind_ok|exact Hl].
+  - intros (H1 & H2). split; [now apply IH1|exact H2].
+Qed.
+Lemma b_ok_adds t : b_ok t -> adds_ok (b_adds t).
+Proof.
+  assert (E : forall t, b_exact t -> adds_ok (b_adds t)).
+  { induction t0 as [kp kn e l|t1 IH1 t2 IH2]; cbn [b_exact b_adds].
+    - intros (_ & _ & H). exact H.
+    - intros (H1 & H2). apply adds_ok_app; [now apply IH1|now apply IH2]. }
+  induction t as [kp kn e l|t1 IH1 t2 IH2]; cbn [b_ok b_adds].
+  - intros (_ & _ & H). exact H.
+  - intros (H1 & H2). apply adds_ok_app; [now apply IH1|now apply E].
+Qed.
+Lemma b_ok_first t : b_ok t -> kind_ok (fst (fst (b_first t))) /\ kind_ok (snd (fst (b_first t))).
+Proof.
+  induction t as [kp kn e l|t1 IH1 t2 IH2]; cbn [b_ok b_first fst snd].
+  - intros (Hp & Hn & _). split; assumption.
+  - intros (H1 & _). now apply IH1.
+Qed.
+
+(* the Layer A image of a list of adds is a_build *)
+Lemma a_run_kadds am lp ln l : forall a, a_run am lp ln a (kadds l) = a_build am lp ln a (q_adds l).
+Proof.
+  unfold a_run, a_build, kadds, q_adds. induction l as [|vc l IH]; intros a; [reflexivity|].
+  cbn [map fold_left fst snd a_step]. rewrite IH. reflexivity.
+Qed.
+Lemma a_norm_new lp ln : a_norm lp ln a_new = a_new.
+Proof. unfold a_norm, a_new. cbn [a_pos a_neg a_zero]. rewrite !CollapsingProofs.norm_nil. reflexivity. Qed.
+Lemma a_norm_exact s : a_norm Exact Exact s = s.
+Proof. destruct s; reflexivity. Qed.
+(* merging two exact sketches built from l1 and l2 = building from l1 ++ l2 (C02_merge_tree on a
+   two-leaf tree) *)
+Lemma a_merge_build am l1 l2 :
+  wnonneg l1 -> wnonneg l2 ->
+  a_merge Exact Exact (a_build am Exact Exact a_new l1) (a_build am Exact Exact a_new l2)
+  = a_build am Exact Exact a_new (l1 ++ l2).
+Proof.
+  intros H1 H2. destruct (merge_tree am (Node (Leaf l1) (Leaf l2))) as (E & _).
+  - cbn [flatten]. unfold wnonneg in *. apply Forall_app. split; assumption.
+  - exact E.
+Qed.
+
+Section Tree.
+Variable rnd : Qc -> Qc.
+Variable fx : fixes.
+Variable mt : mtable.
+Variable m : mapid.
+Hypothesis Hmt : mt_ok mt.
+Hypothesis Hmm : map_equals m m = true.     (* gamma and offset of the shared mapping are not NaN / infinite *)
+
+Lemma b_leaf_spec kp kn e l :
+  kind_ok kp -> kind_ok kn -> adds_ok l ->
+  exists s, sk_run rnd fx mt (sk_new m kp kn e) (kadds l) = Some s /\ SkInv s /\ sk_map s = m /\
+            st_kind (sk_pos s) = kp /\ st_kind (sk_neg s) = kn /\
+            sk_abs s = a_norm (kind_limit kp) (kind_limit kn) (a_build (am_of mt) Exact Exact a_new (q_adds l)).
+Proof.
+  intros Hp Hn Hl.
+  destruct (sketch_history_refines rnd fx mt m kp kn e (kadds l) Hmt Hp Hn (adds_ok_kops m l Hl))
+    as (s & E & Is & _ & M & Kp & Kn & A).
+  exists s. split; [exact E|]. split; [exact Is|]. split; [exact M|]. split; [exact Kp|]. split; [exact Kn|].
+  rewrite A, a_run_kadds.
+  rewrite <- (a_build_norm (am_of mt) _ _ a_new (q_adds l) (kind_limit_ok kp Hp) (kind_limit_ok kn Hn) awf_new
+                (adds_ok_wnonneg l Hl)).
+  rewrite a_norm_new. reflexivity.
+Qed.
+
+Lemma b_exact_spec t :
+  b_exact t ->
+  exists s, b_eval rnd fx mt m t = Some s /\ SkInv s /\ sk_map s = m /\ sk_lp s = Exact /\ sk_ln s = Exact /\
+            sk_abs s = a_build (am_of mt) Exact Exact a_new (q_adds (b_adds t)).
+Proof.
+  induction t as [kp kn e l|t1 IH1 t2 IH2]; cbn [b_exact b_eval b_adds].
+  - intros (Lp & Ln & Hl).
+    destruct (b_leaf_spec kp kn e l (exact_kind_ok kp Lp) (exact_kind_ok kn Ln) Hl) as (s & E & Is & M & Kp & Kn & A).
+    exists s. split; [exact E|]. split; [exact Is|]. split; [exact M|].
+    unfold sk_lp, sk_ln. rewrite !st_limit_kind, Kp, Kn. split; [exact Lp|]. split; [exact Ln|].
+    rewrite A, Lp, Ln. apply a_norm_exact.
+  - intros (H1 & H2). destruct (IH1 H1) as (s1 & E1 & I1 & M1 & P1 & N1 & A1).
+    destruct (IH2 H2) as (s2 & E2 & I2 & M2 & _ & _ & A2). rewrite E1, E2.
+    assert (Hme : map_equals (sk_map s1) (sk_map s2) = true) by (rewrite M1, M2; exact Hmm).
+    destruct (sk_merge_refines s1 s2 I1 I2 Hme) as (s' & o' & E & I' & _ & K & _ & A & _).
+    rewrite E. exists s'. split; [reflexivity|]. split; [exact I'|].
+    split; [destruct K as (K & _); rewrite K; exact M1|].
+    split; [rewrite (sk_same_lp _ _ K); exact P1|]. split; [rewrite (sk_same_ln _ _ K); exact N1|].
+    rewrite A, P1, N1, A1, A2, q_adds_app.
+    apply a_merge_build; apply adds_ok_wnonneg, b_ok_adds, b_exact_ok; assumption.
+Qed.
+
+Lemma b_ok_spec t :
+  b_ok t ->
+  exists s, b_eval rnd fx mt m t = Some s /\ SkInv s /\ sk_map s = m /\
+            st_kind (sk_pos s) = fst (fst (b_first t)) /\ st_kind (sk_neg s) = snd (fst (b_first t)) /\
+            sk_abs s = a_norm (kind_limit (fst (fst (b_first t)))) (kind_limit (snd (fst (b_first t))))
+                              (a_build (am_of mt) Exact Exact a_new (q_adds (b_adds t))).
+Proof.
+  induction t as [kp kn e l|t1 IH1 t2 IH2]; cbn [b_ok b_eval b_adds b_first fst snd].
+  - intros (Hp & Hn & Hl). exact (b_leaf_spec kp kn e l Hp Hn Hl).
+  - intros (H1 & H2). destruct (IH1 H1) as (s1 & E1 & I1 & M1 & P1 & N1 & A1).
+    destruct (b_exact_spec t2 H2) as (s2 & E2 & I2 & M2 & _ & _ & A2). rewrite E1, E2.
+    assert (Hme : map_equals (sk_map s1) (sk_map s2) = true) by (rewrite M1, M2; exact Hmm).
+    destruct (sk_merge_refines s1 s2 I1 I2 Hme) as (s' & o' & E & I' & _ & K & _ & A & _).
+    rewrite E. exists s'. split; [reflexivity|]. split; [exact I'|].
+    pose proof K as (K1 & K2 & K3).
+    split; [rewrite K1; exact M1|]. split; [rewrite K2; exact P1|]. split; [rewrite K3; exact N1|].
+    destruct (b_ok_first t1 H1) as (Okp & Okn).
+    pose proof (adds_ok_wnonneg _ (b_ok_adds t1 H1)) as W1.
+    pose proof (adds_ok_wnonneg _ (b_ok_adds t2 (b_exact_ok t2 H2))) as W2.
+    rewrite A. unfold sk_lp, sk_ln. rewrite !st_limit_kind, P1, N1, A1, A2.
+    rewrite a_merge_norm; [|now apply kind_limit_ok|now apply kind_limit_ok|
+                            apply a_build_awf; [exact awf_new|exact W1]|apply a_build_awf; [exact awf_new|exact W2]].
+    rewrite (a_merge_build (am_of mt) _ _ W1 W2), q_adds_app. reflexivity.
+Qed.
+
+(* C02 on the executable model: the tree and the single sketch that receives all the adds in order
+   (same kinds and statistics flag as the receiver of the tree) never panic, satisfy the invariant,
+   have the same mapping and kinds of stores, and the same Layer A abstraction: the exact content of
+   all the adds, normalised by the receiver's limits (the identity for non-collapsing receivers) *)
+Theorem merge_tree_refines t :
+  b_ok t ->
+  let kp := fst (fst (b_first t)) in let kn := snd (fst (b_first t)) in let e := snd (b_first t) in
+  exists st sf,
+    b_eval rnd fx mt m t = Some st /\
+    sk_run rnd fx mt (sk_new m kp kn e) (kadds (b_adds t)) = Some sf /\
+    SkInv st /\ SkInv sf /\ sk_map st = m /\ sk_map sf = m /\
+    st_kind (sk_pos st) = kp /\ st_kind (sk_neg st) = kn /\ st_kind (sk_pos sf) = kp /\ st_kind (sk_neg sf) = kn /\
+    sk_abs st = sk_abs sf /\
+    sk_abs st = a_norm (kind_limit kp) (kind_limit kn) (a_build (am_of mt) Exact Exact a_new (q_adds (b_adds t))).
+Proof.
+  intros Ht kp kn e. destruct (b_ok_spec t Ht) as (st & E & Is & M & P & N & A).
+  destruct (b_ok_first t Ht) as (Okp & Okn).
+  destruct (b_leaf_spec kp kn e (b_adds t) Okp Okn (b_ok_adds t Ht)) as (sf & E' & Is' & M' & P' & N' & A').
+  exists st, sf. repeat (split; [assumption|]). split; [|exact A]. rewrite A, A'. reflexivity.
+Qed.
+End Tree.
+
+(* ---- equal abstractions, equal observers ---- *)
+Theorem observers_eq (mt : mtable) (s1 s2 : sketch) :
+  SkInv s1 -> SkInv s2 -> sk_abs s1 = sk_abs s2 ->
+  plain_count s1 = plain_count s2 /\ plain_is_empty s1 = plain_is_empty s2 /\
+  plain_min mt s1 = plain_min mt s2 /\ plain_max mt s1 = plain_max mt s2 /\
+  (exists s1' s2' l, sk_foreach mt s1 = Some (s1', l) /\ sk_foreach mt s2 = Some (s2', l)) /\
+  (forall rnd fx q, fD4 fx = true -> fD5 fx = true ->
+     a_quantile rnd (am_of mt) (sk_abs s1) (f2q q) <> None \/ plain_count s1 = w0 \/
+       (fle f64_zero q && fle q f64_one) = false ->
+     snd (plain_quantile rnd fx mt s1 q) = snd (plain_quantile rnd fx mt s2 q)).
+Proof.
+  intros I1 I2 A.
+  assert (C : plain_count s1 = plain_count s2) by (rewrite !plain_count_refines, A by assumption; reflexivity).
+  split; [exact C|].
+  split; [rewrite !plain_is_empty_refines, A by assumption; reflexivity|].
+  split; [rewrite !plain_min_refines, A by assumption; reflexivity|].
+  split; [rewrite !plain_max_refines, A by assumption; reflexivity|].
+  split.
+  { destruct (sk_foreach_refines mt s1 I1) as (s1' & E1 & _). destruct (sk_foreach_refines mt s2 I2) as (s2' & E2 & _).
+    exists s1', s2', (a_items (am_of mt) (sk_abs s1)). split; [exact E1|]. rewrite A. exact E2. }
+  intros rnd fx q F4 F5 H.
+  destruct (fle f64_zero q && fle q f64_one) eqn:Eq.
+  - destruct (weqb_spec (plain_count s1) w0) as [Ec|Ec].
+    + unfold plain_quantile. rewrite F5, Eq, <- C, Ec. cbn [negb]. rewrite weqb_refl. reflexivity.
+    + apply andb_true_iff in Eq. destruct Eq as (Q0 & Q1).
+      assert (Ec2 : plain_count s2 <> w0) by (rewrite <- C; exact Ec).
+      destruct (plain_quantile_refines rnd fx mt s1 q F4 F5 I1 Q0 Q1 Ec) as (s1' & y1 & E1 & _ & _ & _ & M1).
+      destruct (plain_quantile_refines rnd fx mt s2 q F4 F5 I2 Q0 Q1 Ec2) as (s2' & y2 & E2 & _ & _ & _ & M2).
+      rewrite E1, E2. cbn [snd]. rewrite <- A in M2.
+      destruct (a_quantile rnd (am_of mt) (sk_abs s1) (f2q q)) as [y|].
+      * subst y1 y2. reflexivity.
+      * exfalso. destruct H as [H|[H|H]]; [now apply H|contradiction|discriminate H].
+  - unfold plain_quantile. rewrite F5, Eq. reflexivity.
+Qed.
+
+(* the packaged statement: the tree and the flat sketch agree on every observer *)
+Theorem merge_tree_observers (rnd : Qc -> Qc) (fx : fixes) (mt : mtable) (m : mapid) (t : btree) :
+  mt_ok mt -> map_equals m m = true -> b_ok t ->
+  let kp := fst (fst (b_first t)) in let kn := snd (fst (b_first t)) in let e := snd (b_first t) in
+  exists st sf,
+    b_eval rnd fx mt m t = Some st /\
+    sk_run rnd fx mt (sk_new m kp kn e) (kadds (b_adds t)) = Some sf /\
+    SkInv st /\ SkInv sf /\ sk_abs st = sk_abs sf /\
+    sk_abs st = a_norm (kind_limit kp) (kind_limit kn) (a_build (am_of mt) Exact Exact a_new (q_adds (b_adds t))) /\
+    plain_count st = plain_count sf /\ plain_is_empty st = plain_is_empty sf /\
+    plain_min mt st = plain_min mt sf /\ plain_max mt st = plain_max mt sf /\
+    (exists st' sf' l, sk_foreach mt st = Some (st', l) /\ sk_foreach mt sf = Some (sf', l)) /\
+    (forall rnd' fx' q, fD4 fx' = true -> fD5 fx' = true ->
+       a_quantile rnd' (am_of mt) (sk_abs st) (f2q q) <> None \/ plain_count st = w0 \/
+         (fle f64_zero q && fle q f64_one) = false ->
+       snd (plain_quantile rnd' fx' mt st q) = snd (plain_quantile rnd' fx' mt sf q)).
+Proof.
+  intros Hmt Hmm Ht kp kn e.
+  destruct (merge_tree_refines rnd fx mt m Hmt Hmm t Ht) as (st & sf & E1 & E2 & I1 & I2 & _ & _ & _ & _ & _ & _ & A & A').
+  exists st, sf. split; [exact E1|]. split; [exact E2|]. split; [exact I1|]. split; [exact I2|].
+  split; [exact A|]. split; [exact A'|]. exact (observers_eq mt st sf I1 I2 A).
+Qed.
+
+(* ================================================================== *)
+(** * 6. the hypotheses are satisfiable: a stub oracle, alpha = 0.01   *)
+(* ================================================================== *)
+(* math.Floor from Flocq operations; the transcendental functions answer the few arguments the
+   constructors and RelativeAccuracy pass for alpha = 0.01 (values of the C library, to the last bit
+   or not: nothing below depends on it) *)
+Definition bx_floor (x : f64) : f64 :=
+  let t := int_of_f x in let ft := f_of_int t in if flt x ft then f_of_int (t - 1) else ft.
+Definition bx_alpha : f64 := fb 4576918229304087675.     (* 0.01 *)
+Definition bx_g0 : f64 := fb 4607273400610671357.        (* (1 + 0.01) / (1 - 0.01) = 1.0202... *)
+Definition bx_glin : f64 := fb 4607245288818281240.      (* g0 ^ ln 2 *)
+Definition bx_gcub : f64 := fb 4607272501073408450.      (* g0 ^ (10 ln 2 / 7) *)
+Definition bx_L : libm :=
+  {| l_log := fun _ => fb 4581422021096572285;           (* ln g0: a constant function is monotone and bounded *)
+     l_exp := fun x => if feq x c_exp_overflow then fb 9216230289645164774        (* exp(709.43...) *)
+                       else if flt x f64_zero then f64_zero
+                       else if flt (fb 4652007308841189376) x then f64_pinf       (* x > 1000 *)
+                       else bx_g0;
+     l_exp2 := fun x => if flt x f64_zero then f64_zero else f64_pinf;
+     l_log2 := fun x => if feq x bx_glin then fb 4581422021096572306 else fb 4583892649534350114;
+     l_pow := fun x y => if feq y c_ln2 then bx_glin else if feq y c_10ln2_7 then bx_gcub else bx_g0;
+     l_cbrt := fun x => x; l_sqrt := b64_sqrt mode_NE; l_floor := bx_floor |}.
+Definition bx_get (o : option gmap) : gmap :=
+  match o with Some g => g
+  | None => {| gm_kind := MLog; gm_gamma := f64_zero; gm_off := f64_zero; gm_mult := f64_zero;
+               gm_min := f64_zero; gm_max := f64_zero |} end.
+Definition bx_lin : gmap := bx_get (with_accuracy bx_L MLin bx_alpha).
+Definition bx_cub : gmap := bx_get (with_accuracy bx_L MCub bx_alpha).
+Definition bx_log : gmap := bx_get (with_accuracy bx_L MLog bx_alpha).
+
+(* the constructors accept 0.01; multiplier 49.99..., 35.00..., 49.99...; offsets 49.99..., 0, 0;
+   MinIndexableValue 2^-1022 * 1.0202..., MaxIndexableValue 1.258...e308 *)
+Lemma bx_constructed :
+  map (fun k => option_map (fun g => (bits_of_f64 (gm_gamma g), bits_of_f64 (gm_off g), bits_of_f64 (gm_mult g),
+                                      bits_of_f64 (gm_min g), bits_of_f64 (gm_max g)))
+                           (with_accuracy bx_L k bx_alpha)) [MLin; MCub; MLog]
+  = [Some (4607245288818281240, 4632233457158529878, 4632233457158529878, 4594581438024445, 9216167229727615264);
+     Some (4607272501073408450, 0, 4630122465203820771, 4594581438024445, 9216167229727615264);
+     Some (4607273400610671357, 0, 4632233457158529904, 4594581438024445, 9216167229727615264)]%N.
+Proof. vm_compute. reflexivity. Qed.
+
+(* premises of A *)
+Lemma bx_checks : gm_checkb bx_lin = true /\ gm_checkb bx_cub = true /\ gm_checkb bx_log = true.
+Proof. vm_compute. repeat split; reflexivity. Qed.
+Lemma bx_kinds : gm_kind bx_lin = MLin /\ gm_kind bx_cub = MCub /\ gm_kind bx_log = MLog.
+Proof. vm_compute. repeat split; reflexivity. Qed.
+Lemma bx_log_oracle : log_monotone bx_L /\ log_bounded bx_L.
+Proof.
+  split.
+  - intros a b _ _ _ _. cbn [bx_L l_log]. apply Rle_refl.
+  - intros a _ _. cbn [bx_L l_log]. split; [reflexivity|].
+    rewrite BR_fb. set (u := binary_float_of_bits_aux 52 11 _). vm_compute in u. subst u.
+    unfold FF2R, F2R. cbn [Fnum Fexp cond_Zopp].
+    change (bpow radix2 (-58)) with (/ IZR (Z.pow_pos 2 58))%R. change (Z.pow_pos 2 58) with 288230376151711744.
+    rewrite Rabs_right.
+    + apply Rmult_le_reg_r with (IZR 288230376151711744); [lra|]. field_simplify; lra.
+    + apply Rle_ge. apply Rmult_le_pos; [lra|]. apply Rlt_le, Rinv_0_lt_compat. lra.
+Qed.
+Theorem bx_tables_ok :
+  (mt_fok (mt_of_gmap bx_L bx_lin) /\ mt_fmono (mt_of_gmap bx_L bx_lin)) /\
+  (mt_fok (mt_of_gmap bx_L bx_cub) /\ mt_fmono (mt_of_gmap bx_L bx_cub)) /\
+  (mt_fok (mt_of_gmap bx_L bx_log) /\ mt_fmono (mt_of_gmap bx_L bx_log)).
+Proof.
+  destruct bx_checks as (C1 & C2 & C3). destruct bx_kinds as (K1 & K2 & K3). destruct bx_log_oracle as (O1 & O2).
+  destruct (gm_checkb_ok _ C1) as (S1 & R1). destruct (gm_checkb_ok _ C2) as (S2 & R2).
+  destruct (gm_checkb_ok _ C3) as (S3 & R3).
+  split; [apply gmap_table_ok; [exact R1|now apply gm_index_good_lin]|].
+  split; [apply gmap_table_ok; [exact R2|now apply gm_index_good_cub]|].
+  apply gmap_table_ok; [exact R3|now apply gm_index_good_log].
+Qed.
+
+(* premises of B, linear mapping: 3.75, 100, 0.5, -3.75, 0.001, -100, 2.5, 0 into a dense positive
+   and a paginated negative store *)
+Definition bx_vs : list f64 :=
+  map fb [4615626668101337088; 4636737291354636288; 4602678819172646912; 13838998704956112896;
+          4562254508917369340; 13860109328209412096; 4612811918334230528; 0]%N.
+Definition bx_sorted : list f64 :=
+  map fb [13860109328209412096; 13838998704956112896; 0; 4562254508917369340; 4602678819172646912;
+          4612811918334230528; 4615626668101337088; 4636737291354636288]%N.
+Definition bx_mt : mtable := mt_of_gmap bx_L bx_lin.
+Definition bx_map : mapid := {| mk_kind := 1%N; mk_gamma := gm_gamma bx_lin; mk_off := gm_off bx_lin |}.
+(* the accuracy premise at one value, decided by computation on the glue model *)
+Definition acc_okb (L : libm) (g : gmap) (alpha : Qc) (v : f64) : bool :=
+  negb (wltb (f2q (gm_min g)) (f2q (fabs v))) ||
+  wleb (Qcabs (f2q (gm_value L g (gm_index L g (fabs v))) - f2q (fabs v))%Qc) (alpha * f2q (fabs v))%Qc.
+Lemma acc_okb_ok L g alpha vs :
+  forallb (acc_okb L g alpha) vs = true ->
+  forall v, In v vs -> (f2q (gm_min g) < f2q (fabs v))%Qc ->
+    (Qcabs (f2q (gm_value L g (gm_index L g (fabs v))) - f2q (fabs v)) <= alpha * f2q (fabs v))%Qc.
+Proof.
+  intros H v Hv Hlt. rewrite forallb_forall in H. specialize (H v Hv). unfold acc_okb in H.
+  apply orb_true_iff in H. destruct H as [H|H].
+  - apply wltb_lt in Hlt. rewrite Hlt in H. discriminate H.
+  - apply wleb_le. exact H.
+Qed.
+
+Lemma bx_perm : Permutation (map f2q bx_vs) (map f2q bx_sorted).
+Proof.
+  apply Permutation_map. unfold bx_vs, bx_sorted. cbn [map].
+  apply (Permutation_cons_app [_; _; _; _; _; _] [_]).
+  apply (Permutation_cons_app [_; _; _; _; _; _] []).
+  apply (Permutation_cons_app [_; _; _; _] [_]).
+  apply (Permutation_cons_app [_] [_; _; _]).
+  apply (Permutation_cons_app [_; _] [_]).
+  apply (Permutation_cons_app [] [_; _]).
+  apply perm_swap.
+Qed.
+Lemma bx_sorted_ok : Sorted Qcle (map f2q bx_sorted).
+Proof.
+  unfold bx_sorted. cbn [map].
+  repeat (first [apply Sorted_nil | apply Sorted_cons | apply HdRel_nil | apply HdRel_cons
+                | apply wleb_le; vm_compute; reflexivity]).
+Qed.
+
+Example bx_quantile_by_theorem (q : f64) (kp kn : kind) (exact : bool) :
+  kind_limit kp = Exact -> kind_limit kn = Exact ->
+  fle f64_zero q = true -> fle q f64_one = true ->
+  exists s, plain_add_units bx_mt (sk_new bx_map kp kn exact) bx_vs = ROk s /\ SkInv s /\
+  exists (k : nat) (s' : sketch) (y : Qc),
+    cfloor (f2q q * inj 7) <= Z.of_nat k <= cceil (f2q q * inj 7) /\ (k < 8)%nat /\
+    plain_quantile rnd64 fx_all bx_mt s q = (s', ROk y) /\
+    (((Qcabs (nth k (map f2q bx_sorted) w0) <= f2q (gm_min bx_lin))%Qc /\ y = w0) \/
+     (Qcabs (y - nth k (map f2q bx_sorted) w0) <= f2q bx_alpha * Qcabs (nth k (map f2q bx_sorted) w0))%Qc).
+Proof.
+  intros Lp Ln Q0 Q1.
+  destruct bx_checks as (C1 & _). destruct bx_kinds as (K1 & _). destruct (gm_checkb_ok _ C1) as (S1 & R1).
+  destruct (gmap_quantile_accuracy_rnd64 bx_L bx_lin fx_all bx_map kp kn exact bx_vs (map f2q bx_sorted) q
+              (f2q bx_alpha) R1 (gm_index_good_lin bx_L bx_lin K1 S1) Lp Ln eq_refl eq_refl)
+    as (s & Es & Is & k & s' & y & B1 & B2 & Eq & _ & _ & _ & Acc).
+  - unfold bx_vs. cbn [map]. repeat constructor.
+  - assert (H : forallb (fun v => wleb (Qcabs (f2q v)) (f2q (gm_max bx_lin))) bx_vs = true) by (vm_compute; reflexivity).
+    rewrite forallb_forall in H. intros v Hv. apply wleb_le. exact (H v Hv).
+  - exact bx_perm.
+  - exact bx_sorted_ok.
+  - discriminate.
+  - vm_compute. discriminate.
+  - exact Q0.
+  - exact Q1.
+  - apply acc_okb_ok. vm_compute. reflexivity.
+  - exists s. split; [exact Es|]. split; [exact Is|]. exists k, s', y.
+    split; [exact B1|]. split; [exact B2|]. split; [exact Eq|exact Acc].
+Qed.
+
+(* and by computation: the answers at q = 0, 0.5, 1 are Value(Index(.)) of -100, 0.001, 100
+   (-100.30..., 0.0010029..., 100.30...) *)
+Example bx_quantile_computed :
+  match plain_add_units bx_mt (sk_new bx_map KDense KPag false) bx_vs with
+  | ROk s => map (fun q => match snd (plain_quantile rnd64 fx_all bx_mt s q) with
+                           | ROk y => Some (bits_of_f64 (q2f y)) | _ => None end)
+                 [f64_zero; fb 4602678819172646912; f64_one]
+  | _ => []
+  end = [Some 13860169471689488064; Some 4562281069595096390; Some 4636797434834712256]%N.
+Proof. vm_compute. reflexivity. Qed.
+
+(* D by computation: 0, 1, -0.5 and 2^-60 are refused (the last one by the gamma test: 1 + a and
+   1 - a round to 1), 0.01 is accepted *)
+Example bx_ctor_refusals :
+  map (fun a => match with_accuracy bx_L MLog (fb a) with Some _ => true | None => false end)
+      [0; 4607182418800017408; 13826050856027422720; 4336965041462968320; 4576918229304087675]%N
+  = [false; false; false; false; true].
+Proof. vm_compute. reflexivity. Qed.
+
+(* ---- B per kind: linear and cubic need nothing of the oracle for the index; logarithmic needs a
+   monotone bounded math.Log.  The accuracy premise (libm gap) stays in all three. ---- *)
+Section PerKind.
+Variables (L : libm) (g : gmap) (fx : fixes) (m : mapid) (kp kn : kind) (exact : bool)
+          (vs : list f64) (ys : list Qc) (q : f64) (alpha : Qc).
+Let concl : Prop :=
+  let mt := mt_of_gmap L g in
+  exists s, plain_add_units mt (sk_new m kp kn exact) vs = ROk s /\ SkInv s /\
+  exists (k : nat) (s' : sketch) (y : Qc),
+    cfloor (f2q q * inj (Z.of_nat (length vs) - 1)) <= Z.of_nat k <= cceil (f2q q * inj (Z.of_nat (length vs) - 1)) /\
+    (k < length vs)%nat /\
+    plain_quantile rnd64 fx mt s q = (s', ROk y) /\ SkInv s' /\ sk_abs s' = sk_abs s /\
+    y = repr (am_of mt) (nth k ys w0) /\
+    (((Qcabs (nth k ys w0) <= f2q (gm_min g))%Qc /\ y = w0) \/
+     (Qcabs (y - nth k ys w0) <= alpha * Qcabs (nth k ys w0))%Qc).
+Let prem : Prop -> Prop := fun C =>
+  gm_small g -> gm_range_ok g ->
+  kind_limit kp = Exact -> kind_limit kn = Exact ->
+  fD4 fx = true -> fD5 fx = true ->
+  Forall (fun v => f_is_finite v = true) vs ->
+  (forall v, In v vs -> (Qcabs (f2q v) <= f2q (gm_max g))%Qc) ->
+  Permutation (map f2q vs) ys -> Sorted Qcle ys -> vs <> [] -> Z.of_nat (length vs) <= 2 ^ 53 ->
+  fle f64_zero q = true -> fle q f64_one = true ->
+  (forall v, In v vs -> (f2q (gm_min g) < f2q (fabs v))%Qc ->
+     (Qcabs (f2q (gm_value L g (gm_index L g (fabs v))) - f2q (fabs v)) <= alpha * f2q (fabs v))%Qc) ->
+  C.
+Theorem gmap_lin_quantile_accuracy_rnd64 : gm_kind g = MLin -> prem concl.
+Proof.
+  intros K S R. apply (gmap_quantile_accuracy_rnd64 L g fx m kp kn exact vs ys q alpha R).
+  now apply gm_index_good_lin.
+Qed.
+Theorem gmap_cub_quantile_accuracy_rnd64 : gm_kind g = MCub -> prem concl.
+Proof.
+  intros K S R. apply (gmap_quantile_accuracy_rnd64 L g fx m kp kn exact vs ys q alpha R).
+  now apply gm_index_good_cub.
+Qed.
+Theorem gmap_log_quantile_accuracy_rnd64 : gm_kind g = MLog -> log_monotone L -> log_bounded L -> prem concl.
+Proof.
+  intros K O1 O2 S R. apply (gmap_quantile_accuracy_rnd64 L g fx m kp kn exact vs ys q alpha R).
+  now apply gm_index_good_log.
+Qed.
+End PerKind.
+
+(* the snapped table discharges the all-rationals premises of Rf_* / C01 and is indistinguishable
+   from the table itself for the executed functions *)
+Theorem snapped_table (mt : mtable) :
+  mt_fok mt -> mt_fmono mt ->
+  mt_ok (snap_mt mt) /\ (w0 <= f2q (mt_min (snap_mt mt)))%Qc /\
+  (forall x y : Qc, (f2q (mt_min (snap_mt mt)) < x)%Qc -> (x <= y)%Qc -> (y <= f2q (mt_max (snap_mt mt)))%Qc ->
+                    mt_index (snap_mt mt) x <= mt_index (snap_mt mt) y) /\
+  (forall s v c, plain_add (snap_mt mt) s v c = plain_add mt s v c) /\
+  (forall s vs, plain_add_units (snap_mt mt) s vs = plain_add_units mt s vs) /\
+  (forall rnd fx s q, plain_quantile rnd fx (snap_mt mt) s q = plain_quantile rnd fx mt s q) /\
+  (forall v : f64, repr (am_of (snap_mt mt)) (f2q v) = repr (am_of mt) (f2q v)).
+Proof.
+  intros Hok Hm. split; [now apply snap_mt_ok|]. split; [exact (proj1 (proj2 (proj2 Hok)))|].
+  split; [now apply snap_mt_mono|]. split; [intros; apply plain_add_snap|].
+  split; [intros; apply plain_add_units_snap|]. split; [intros; apply plain_quantile_snap|]. intros; apply repr_snap.
+Qed.
